@@ -12,6 +12,7 @@ def run(ctx):
     provenance.rule_fresh_solver_per_encoding(ctx, 'extension')
     provenance.rule_range_encoding(ctx)
     accept.rule_tuple_components_consistent(ctx)
+    accept.rule_every_component_contributes(ctx, 'extension')
     accept.rule_stage_layering(ctx, 'extension')
     ctx.assume("rustc's MIR / borrow checker (returned &Argument cannot point into a local component framework: witness W3, thorough tier)")
     return (
